@@ -271,7 +271,7 @@ def run(rep, db, tier, seed):
     rep.trusted += M.TRUSTED + env.TRUSTED + ['VecDeque = python list; blocks are PreGenesis blocks with opaque payloads (identity = python object)', 'FinalBlock::verify summarised by its contract (C04); EngineInterface::verify_pregenesis_block returns Ok/Err arbitrarily']
     rep.assumptions += ['each call is atomic under the tokio watch lock; interleavings with the persister / truncation tasks and restart are outside']
     Ls = [0, 1, 2, 100, 101] if tier == 'quick' else [0, 1, 2, 3, 99, 100, 101, 102]
-    rep.bounds = dict(cache_lengths=Ls, block_numbers='symbolic < 2^62', queue_block='store with 1 cached block, pre-genesis and finalized blocks')
+    rep.bounds = dict(cache_lengths=Ls, block_numbers='symbolic < 2^62', queue_block='store with 1 cached block, pre-genesis and finalized blocks', persist_task='2 (quick) / 3 (thorough) loop iterations from queue_next = 0, arbitrary store (cache 0..2) at every wait')
     seen = {}
     def handle(name, fn, *a):
         t0 = time.time()
@@ -288,6 +288,12 @@ def run(rep, db, tier, seed):
     for L in Ls:
         handle(f'try_push / update_persisted / truncate_cache, cache length {L}', check_ops, L)
     handle('queue_block verifies before pushing', check_queue_block)
+    # hand-over to durable storage: the persisting task of EngineManagerRunner::run, from its initial state
+    try:
+        from props import c08_persist
+        c08_persist.run(rep, db, tier)
+    except Exception as u:
+        rep.add(Obligation('persist task: blocks handed to storage in order, without gaps or repeats', 'inconclusive', f'{type(u).__name__}: {u}'[:600]))
     from props import kani_part
     kani_part.run(rep, PROP, tier)
     rep.extra['explanation'] = 'one operation from an arbitrary invariant-satisfying store: Kani on the real file for small caches, MIR execution at the real capacity boundary and for the verification-before-queueing order of queue_block'
